@@ -1,5 +1,6 @@
 SPECIFICATION Spec
 CONSTANTS
+ MaxUpdates = 0
  MaxReinit = 0  FixLostWorker = TRUE
  CountCalls = TRUE
  NW = 2  BS = 1  Total = 3  Chunk = 1  HdrSz = 1  TailSz = 2
